@@ -89,6 +89,11 @@ var (
 // are a function of the fixed plugin name, index and timeouts only.
 func measureHandshake() handshake {
 	hsOnce.Do(func() {
+		// the measuring session is a case like any other: journal it, so that a crash in it
+		// (a panic on one of nri's goroutines) is attributed to a replayable case
+		mc := C16Case{Actions: []Action{{Op: "start", Script: &Script{Kind: "healthy", Activate: true}}, {Op: "stop"}}}
+		ev.Get("C16").Journal(ev.Snapshot(mc))
+		defer ev.Get("C16").ClearJournal()
 		x, err := newExec(C16Case{})
 		if err != nil {
 			hs.err = err
@@ -232,14 +237,16 @@ type exec struct {
 	waiters  []chan struct{}
 
 	// bookkeeping for evidence
-	hist      []step
-	cur_i     int
-	classes   map[string]bool
-	lenient   map[string]bool
-	faulted   bool // a session ended by fault or back-to-back restart
-	wedged    bool // a stub call did not return: the stub is abandoned
-	stacks    string
-	maxCCWait time.Duration
+	hist    []step
+	cur_i   int
+	classes map[string]bool
+	lenient map[string]bool
+	faulted bool // a session ended by fault or back-to-back restart
+	wedged  bool // a stub call did not return: the stub is abandoned
+	// stillStarted: at the last idle state the stub kept reporting IsStarted for 3 s
+	stillStarted bool
+	stacks       string
+	maxCCWait    time.Duration
 }
 
 func newExec(c C16Case) (*exec, error) {
@@ -597,7 +604,13 @@ func (x *exec) doStart(sc Script) *failure {
 	switch sc.Kind {
 	case "healthy":
 		if dialed == 0 {
-			return hard("a healthy Start failed without dialling: the stub did not use a fresh connection (dials stays %d): %v", x.dials.Load(), err)
+			f := hard("a healthy Start failed without dialling: the stub did not use a fresh connection (dials stays %d): %v", x.dials.Load(), err)
+			if x.stillStarted {
+				// the stub had not visibly finished the previous session: slowness could explain it
+				f.soft = true
+				f.msg += " (the stub still reported being started 3 s after the previous session ended)"
+			}
+			return f
 		}
 		return soft("a healthy Start on a fresh connection failed: %v", err)
 	case "cut":
@@ -846,8 +859,9 @@ func (x *exec) settleIdle(why string) *failure {
 			return soft("%s: the stub still holds connection #%d open %v later", why, l.n, slack)
 		}
 	}
-	// harness synchronisation for the next Start (public method, not part of the oracle unless
-	// it never happens): the stub has noticed the loss.
+	// harness synchronisation for the next Start (a public method; not part of the oracle): the
+	// stub has noticed that the session is over. If that cannot be established the next
+	// Start's verdict is not taken at face value (see doStart).
 	if is, ok := x.st.(isStarted); ok {
 		for {
 			var started bool
@@ -856,11 +870,13 @@ func (x *exec) settleIdle(why string) *failure {
 				return soft("%s: IsStarted blocked for %v", why, slack)
 			}
 			if !started {
+				x.stillStarted = false
 				break
 			}
-			if time.Since(t0) > 2*slack {
+			if time.Since(t0) > slack {
+				x.stillStarted = true
 				x.rec("settle", t0, "still started")
-				return soft("%s: the stub still reports being started %v later", why, 2*slack)
+				break
 			}
 			time.Sleep(200 * time.Microsecond)
 		}
@@ -1008,6 +1024,11 @@ func execOnce(c C16Case) (out ev.Outcome, f *failure) {
 // runC16 executes the case; a verdict that depends on the clock is confirmed by re-executing
 // the same case (up to three times): it is a violation only if it fails every time.
 func runC16(c C16Case) ev.Outcome {
+	key := string(ev.Snapshot(c))
+	if o, ok := confirmed[key]; ok {
+		// rapid re-runs the minimal case: a verdict confirmed four times is not paid for again
+		return o
+	}
 	out, f := execOnce(c)
 	if f == nil || !f.soft {
 		return out
@@ -1027,8 +1048,12 @@ func runC16(c C16Case) ev.Outcome {
 		out = o2
 	}
 	out.Fail = fmt.Sprintf("%s [failed in 4 of 4 executions; first: %s]", out.Fail, first.Fail)
+	confirmed[key] = out
 	return out
 }
+
+// confirmed holds the time-clause verdicts that failed in four executions, by case.
+var confirmed = map[string]ev.Outcome{}
 
 func TestProp_C16(t *testing.T) {
 	if sweepFailed {
